@@ -64,8 +64,19 @@ def graph_from_molfile_text(molfile: str) -> nx.Graph:
         raise MolfileParserException(f'Unsupported Molfile version "{molfile_version}"')
 
     _validate_atom_attributes(atom_attrs)
+    _validate_bonds(bond_attrs)
 
     return graph_from_molecule(atom_attrs, bond_attrs)
+
+
+def _validate_bonds(bond_attrs: dict[tuple[int, int], dict[str, int]]) -> None:
+    # A bond connects two different atoms. A self-bond would be serialized as the
+    # tuple "(a-a)", which the TUCAN parser rejects.
+    for atom1_index, atom2_index in bond_attrs.keys():
+        if atom1_index == atom2_index:
+            raise MolfileParserException(
+                f"Atom {atom1_index + 1} is bonded to itself"
+            )
 
 
 def _validate_atom_attributes(atom_attrs: dict[int, dict[str, Any]]) -> None:
